@@ -52,3 +52,7 @@ ENGINE['C20'] = 'symx+odex'
 CHECKS['C20'] = (_SYMX + ' for subsample/get_time_shift on lists with symbolic entries; odex identities and symbolic differentiation for the generating-function helpers and estimate_R0',
                  'subsample / get_time_shift equal their step-function references for all real-valued entries of lists up to the length bound; psi(1), psi\'(1), psi\'\'(1), the derivative chain and R0 = T<k^2-k>/<k> hold for all symbolic P_k, x, tau, gamma; get_Pk / get_Pnk normalisation on every graph with <= 4 nodes',
                  'floats as reals; list lengths <= 3 (4); K <= 4 (6)', 'DESIGN.md 6/C20')
+ENGINE['C19'] = 'symx+odex'
+CHECKS['C19'] = (_SYMX + ' / odex; argument snapshots compared on every path, second call with the same objects, flow-stub arguments and right-hand sides compared as terms',
+                 'on every path of every configuration in the bound the graph, initial-condition containers, specification graphs and numeric array arguments are unchanged after the call; the same call repeated with the same objects succeeds, and ODE model functions hand identical (X0, args, right-hand side) to the integrator',
+                 'floats as reals; the frame condition is largely independent of numeric values, so the solver share is small (DESIGN section 8)', 'DESIGN.md 6/C19')
